@@ -21,6 +21,7 @@ from ..cfg import CFG
 from ..pyfront import dotted, call_name, kwarg, params, src, walk_no_nested, const
 
 EXPLANATION = (
+    'The AST nodes built by RangeCondition / InListCondition / RegexInfixOperand / BinaryInfixOperand are obtained by evaluating __init__ and ast() on model tokens (sa/tensym.py) and compared field by field with the meaning of the construct; the pyparsing terminals are required to be case-sensitive.  Further: '
     "Table extraction with constant folding from mdtraj/core/selection.py: the _kw(...) alias tables are expanded, "
     "compared with the keyword table parsed from docs/atom_selection.rst and with the documented meaning of each keyword "
     "(attribute chain on Atom/Residue/Chain/Element); the operator table is compared with the AST node each spelling must "
